@@ -31,9 +31,11 @@
 (*             `with` block as the same object and changes nothing              *)
 (* Freedom the statement leaves and P therefore keeps:  what happens to a       *)
 (* gateway error itself (swallowed or not);  whether a failure reported while   *)
-(* the breaker is open restarts the cool-down;  whether calls that were kept    *)
-(* off the gateway interrupt a run of failures (they drop the requirement,      *)
-(* not the permission).                                                         *)
+(* the cool-down period still lasts restarts it (one reported after the period  *)
+(* is a failure of a closed breaker);  whether calls that were kept off the     *)
+(* gateway interrupt a run of failures (they drop the requirement, not the      *)
+(* permission);  whether the requirement run restarts when the period ends or   *)
+(* at the first read after it.                                                  *)
 (*                                                                             *)
 (* P is written as a successor *relation on P-states*  Succ(s, e)  so that the   *)
 (* same definition serves (a) P as a TLA+ behaviour spec, (b) the refinement     *)
@@ -49,12 +51,18 @@ Outs == {"ok", "gwerr", "appexc", "skip"}
 Raises == {"none", "same", "other"}
 
 \* P-state: configuration (N = failures to trip, C = cool-down seconds) and the breaker as the property sees it
-PInit(n, c) == [N |-> n, C |-> c, ok |-> TRUE, run |-> 0, req |-> 0, cs |-> 0, now |-> 0]
+PInit(n, c) == [N |-> n, C |-> c, ok |-> TRUE, run |-> 0, req |-> 0, cs |-> 0, now |-> 0, pend |-> FALSE]
 
-\* the cool-down is over: the gateway is tried again (recovery).  Recovery is placed at the first read of the
-\* breaker after the cool-down elapsed - between the two nothing distinguishes a breaker that re-closed by itself
-\* from one that re-closes when asked, and the requirement run (req) restarts there.
-Recover(s) == IF ~s.ok /\ s.now - s.cs >= s.C THEN [s EXCEPT !.ok = TRUE, !.req = 0] ELSE s
+\* "... sends traffic directly to the provider FOR THE COOL-DOWN PERIOD, then tries the gateway again": the period is a
+\* matter of the clock, so the breaker is closed again from the instant now - cs >= C on, whether or not anybody has asked
+\* it since.  A gateway failure reported after that instant is therefore a failure of a *closed* breaker (it counts towards
+\* a new trip and, if it trips, the bypass lasts a full cool-down from that failure); only failures reported *within* the
+\* period leave the choice of restarting it.  Tick is applied before every event except a clock advance.
+\* pend: the recovery has not been observed by a read yet.  An implementation that re-closes lazily (when asked) cannot
+\* restart its requirement run before that read, so at the first read after a recovery req may be restarted once more.
+Tick(s) == IF ~s.ok /\ s.now - s.cs >= s.C THEN [s EXCEPT !.ok = TRUE, !.req = 0, !.pend = TRUE] ELSE s
+AtRead(s) == LET r == Tick(s) IN
+             IF r.pend THEN {[r EXCEPT !.pend = FALSE], [r EXCEPT !.pend = FALSE, !.req = 0]} ELSE {r}
 
 Cap(x, n) == IF x > n THEN n ELSE x
 
@@ -67,7 +75,7 @@ GwFail(s) ==
         THEN IF req2 >= s.N THEN {[t EXCEPT !.ok = FALSE, !.cs = s.now]}                      \* required
              ELSE IF run2 >= s.N THEN {t, [t EXCEPT !.ok = FALSE, !.cs = s.now]}              \* permitted
              ELSE {t}                                                                         \* forbidden
-        ELSE {t, [t EXCEPT !.cs = s.now]}        \* already open: the cool-down may or may not start over
+        ELSE {t, [t EXCEPT !.cs = s.now]}        \* open and within the period: the cool-down may or may not start over
 
 \* outcome `out` of a gateway leg (or of the filter) with `raised` leaving the with-block
 Body(s, out, raised) ==
@@ -80,14 +88,13 @@ Body(s, out, raised) ==
 \* set of P-states after event e (with its observation) from P-state s; {} = the property forbids the observation
 Succ(s, e) ==
     CASE e.ev = "adv"  -> IF e.d >= 0 THEN {[s EXCEPT !.now = s.now + e.d]} ELSE {}
-      [] e.ev = "ask"  -> LET r == Recover(s) IN IF e.ans = r.ok THEN {r} ELSE {}
+      [] e.ev = "ask"  -> {r \in AtRead(s) : e.ans = r.ok}
       [] e.ev = "call" ->
             IF e.read
-            THEN LET r == Recover(s) IN
-                 IF e.ans # r.ok THEN {}
-                 ELSE IF ~e.ans THEN (IF e.raised = "none" THEN {r} ELSE {})       \* bypassed: the leg did not run
-                 ELSE Body(r, e.out, e.raised)
-            ELSE Body(s, e.out, e.raised)      \* no read: recovery is only ever observed (and placed) at a read
+            THEN UNION {IF e.ans # r.ok THEN {}
+                        ELSE IF ~e.ans THEN (IF e.raised = "none" THEN {r} ELSE {})       \* bypassed: the leg did not run
+                        ELSE Body(r, e.out, e.raised) : r \in AtRead(s)}
+            ELSE Body(Tick(s), e.out, e.raised)      \* a leg already in flight reports its outcome, nobody reads the breaker
       [] OTHER -> {}
 
 SuccSet(S, e) == UNION {Succ(s, e) : s \in S}
